@@ -38,64 +38,16 @@ specification fold `accStep` (`Conv.run_sim`) under the invariant
 * `C01_buffered_eq_accepted`: buffered samples = accepted samples as multisets — `removeProc` parks a
   non-empty buffer, every other helper re-inserts the process with the same buffer.
 
-Then the flush keeps entry / time of every buffered sample with weight 1 (`C01_flushAll_no_loss_partial`, kept
-from the first instalment; the `_partial` lemmas are the flush-stage facts, now subsumed) and `views` is a
-partition of the flushed samples by entry index (`Conv.views_perm`), dropping nothing because all indices are
-valid.
+Then the flush keeps entry / time of every buffered sample with weight 1 (`Conv.flushBuffer_proj`,
+`Conv.flushAll_proj` in `Lemmas/ConvFinal.lean`) and `views` is a partition of the flushed samples by entry index
+(`Conv.views_perm`), dropping nothing because all indices are valid.
 -/
 open Conv ConvSpec
-
-/-- Flushing a buffer yields exactly one output sample per buffered sample, in order, on the thread entry
-the sample was tagged with, at its recorded time and with weight 1 — whatever the mapping queue and the
-perf map are. -/
-theorem C01_flush_no_loss_partial (pm maps : List MapAdd) (q : List (Nat × MapAdd)) (us : List USample) :
-    (flushBuffer pm maps q us).map (fun o => (o.1, o.2.t, o.2.weight)) = us.map (fun u => (u.th, u.t, u.weight)) := by
-  induction us generalizing maps q with
-  | nil => rfl
-  | cons u rest ih =>
-    unfold flushBuffer
-    simp only [List.map_cons]
-    rw [ih]
-
-/-- The same for the whole flush: the output samples are the concatenation of all parked and live buffers. -/
-theorem C01_flushAll_no_loss_partial (s : St) :
-    (flushAll s).map (fun o => (o.1, o.2.t, o.2.weight)) =
-      (allBuffers s).flatMap (fun b => b.1.map (fun u => (u.th, u.t, u.weight))) := by
-  unfold flushAll
-  rw [List.map_flatMap]
-  congr 1
-  funext b
-  exact C01_flush_no_loss_partial (perfMapTable s.cfg b.2.2) [] b.2.1 b.1
 
 /-- Samples of the idle thread (tid 0) change nothing. -/
 theorem C01_idle_ignored (s : St) (pid t : Nat) (km : Bool) (period ip : Nat) (chain : List Nat) :
     step s (.sample pid 0 t km period ip chain) = s := by
   simp [step]
-
-theorem accStep_no_idle (st : Last × List Acc) (r : Rec) (h : ∀ a ∈ st.2, a.tid ≠ 0) :
-    ∀ a ∈ (accStep st r).2, a.tid ≠ 0 := by
-  cases r with
-  | sample pid tid t km period ip chain =>
-    simp only [accStep]
-    split
-    · exact h
-    · split
-      · exact h
-      · intro a ha
-        simp only [List.mem_append, List.mem_singleton] at ha
-        rcases ha with ha | ha
-        · exact h a ha
-        · subst ha; assumption
-  | exit pid tid t => simp only [accStep]; split <;> exact h
-  | comm pid tid name isExec t =>
-    cases isExec
-    · exact h
-    · simp only [accStep]; split <;> exact h
-  | fork => exact h
-  | mmap2 => exact h
-  | switchIn => exact h
-  | switchOut => exact h
-  | sched => exact h
 
 /-- The specification never accepts an idle-thread sample. -/
 theorem C01_accepted_no_idle (rs : List Rec) : ∀ a ∈ accepted rs, a.tid ≠ 0 := by
